@@ -274,4 +274,17 @@ LEMMAS["C11"] = ["L-C11: by C10 (hash == XOR of KEY over the features present, w
 LEMMAS["C10"] = ["L-lin: if positions p, q agree outside a set S of squares then spec_hash(q) ^ spec_hash(p) = XOR over s in S of (KEY(p at s) ^ KEY(q at s)) ^ rest(p) ^ rest(q) (XOR is associative/commutative; equal terms cancel). With O-C10.play.* / O-C10.null (hash delta == that sum, real arithmetic) and O-C10.ctor.* (constructors establish hash == spec_hash) the invariant hash == spec_hash(position) holds along every history (L-hist)",
                  "L-hist: induction over the history: constructors establish INV (O-C09.build, O-C10.ctor.build), play_unchecked and null_move preserve it (O-C02/C03/C06.inv-preserved/C10.play, O-C14.null/O-C10.null)"]
 LEVEL = {"C08": "model_checking"}
-ASSUME = {}
+_BOARD = ["B1 lookups (get_rook_moves, get_bishop_moves, rays, between, line, knight, king, pawn attacks/quiets) are replaced by their contracts (kani::stub, right-hand sides of O-C05.*)",
+          "B2 bitboard for-loops are replaced by loop-invariant VCs (init / arbitrary iteration / exit) generated by tools/extract.py from tools/loops.json; the modifies-scan of each body is syntactic",
+          "B3 the symbolic board is any board with spec_accept(position) and derived fields by definition (INV); INV is inductive (O-C06.inv-preserved.*, O-C14.null) and established by the constructors (O-C09.build)",
+          "B4 CBMC pointer-validity checks and Kani reachability covers are off for these harnesses (safe Rust); panic, overflow, bounds and unwinding checks are on"]
+ASSUME = {p: _BOARD for p in ("C01", "C02", "C03", "C04", "C06", "C09", "C10", "C12", "C13", "C14", "C16", "C20")}
+ASSUME["C10"] = _BOARD + ["H1 quick tier: board-level hash obligations see the four writers through their contracts (feature accounting); applicable only while no other function of zobrist.rs writes the hash field (scanned every run), otherwise the real-arithmetic obligations run",
+                           "H2 L-lin: XOR linearity connects the real-arithmetic delta obligations to hash == spec_hash(position)"]
+ASSUME["C11"] = ["V1 Verus/Z3; the two #[verifier::external_body] I/O functions of verus/indep4.rs carry no specification", "V2 the key dump (extraction edit E6, native/src/main.rs `keys`) lists every table entry exactly once"]
+ASSUME["C05"] = ["S1 PEXT hardware semantics modelled by a 64-step gather (Intel SDM); extraction edit E4 removes the compile-time BMI2 gate under cfg(kani) only",
+                 "S2 part (c) of the slider argument is exhaustive evaluation on the build-script output of the current tree (both configurations), not a SAT proof"]
+ASSUME["C08"] = ["T1 every string quantifier is bounded by the stated byte length; the placement parser is only covered at 3 bytes; from_fen orchestration and totality on long strings are NOT covered"]
+ASSUME["C15"] = ["K1 is_legal and play_unchecked are replaced by recording contract stubs; their own contracts are O-C04.* and O-C02/C03/C10.play.*"]
+ASSUME["C13"] = _BOARD + ["K2 is_legal is replaced by its contract (O-C04.*), hash_without_ep by 'a function of placement, side and rights' (C10)"]
+ASSUME["C20"] = _BOARD + ["U1 only the UCI half is decided; SAN writer/reader are not covered"]
